@@ -3,7 +3,8 @@
 //	wc | <prog> / <prog> ...      one program per goroutine on one zero-value WaitClose; a program is a list of calls
 //	                              `<at>:<op>`, issued at virtual instant max(at, return of the previous call) (ns from the
 //	                              scenario start).  ops: C  W<timeout ns>  I  Xn (Close(nil))  Xs<d> / Xe<d> / Xp<d> (Close with a
-//	                              callback that sleeps d ns and then returns nil / returns an error / panics)
+//	                              callback that sleeps d ns and then returns nil / returns an error / panics); Xg<d>: the
+//	                              callback ends its goroutine with runtime.Goexit (oracle-only class, value `exited`)
 //	stress <goroutines> <rounds> <seed>    real goroutines hammering Close/C/WaitUtil/IsClosed on fresh objects (L3)
 //
 // observation: r<g>.<i>@<call instant>-<return instant>=<value>  (C: global | own<k> | nil ; W, I: 0|1 ; X: nil|err),
@@ -195,12 +196,22 @@ func runScenario(progs [][]call) string {
 								return errCb
 							case 'p':
 								panic("callback panic")
+							case 'g':
+								runtime.Goexit() // e.g. t.FailNow() inside the callback: the goroutine ends, Close never returns
 							}
 							return nil
 						}
 					}
-					err := wc.Close(cb)
-					if err != nil {
+					if c.cb == 'g' {
+						// the Close call runs in its own goroutine, which ends inside the callback; wait for its end only
+						ended := make(chan struct{})
+						go func() {
+							defer close(ended)
+							_ = wc.Close(cb)
+						}()
+						<-ended
+						val = "exited"
+					} else if err := wc.Close(cb); err != nil {
 						val = "err"
 					} else {
 						val = "nil"
